@@ -33,6 +33,11 @@ RULE = ("random screens (1-14 rows quick / 1-30 thorough, arity 1-3, small name/
         "40% of the parents with >= 2 plates went through 1-3 in-place Plate.merge calls (any pair of equally observed plates, merged plates again; the stored "
         "plate mapping is then stale): views, attributes, derived properties and to_screen (rows incl. the plate name per row; plate ids of the materialised "
         "screen decode to those names) are checked against the parent's rows AFTER the merges, which is also what the model is given. "
+        "Checklist classes generated in every run: class.temporaries (attributes / to_screen / unique filter read from temporary get_plate(p) / subset(m) "
+        "views of equal size, only the value kept), class.instalments (subset(m1).subset(m2) = subset(composed); a.combine(b).combine(c) = concat([a,b,c]) = "
+        "subset(union), on every property by introspection and after to_screen), class.int-width (parents with 127/128/255/256/257 plates and treatment ids: "
+        "all plates, rows with large ids, unique filter, to_screen). Only clauses of the property text give a concrete replay; exception classes, the "
+        "None-for-empty convention, malformed masks / columns and values owned by other properties are compared with model and reference (tie). "
         "Non-trivial: tree with >= 3 operations incl. a nested subset or unique filter, evaluated without error on a screen of >= 3 rows.")
 
 ATTRS = ["plate_ids", "sample_ids", "treatment_ids", "sample_names", "treatment_names", "treatment_doses", "observations", "observation_mask"]
@@ -109,6 +114,16 @@ def ste_close(a, b):
     if len(a) != len(b):
         return False
     return all(len(x) == len(y) and all(abs(p - q) <= 1e-9 * max(1.0, abs(p), abs(q)) for p, q in zip(x, y)) for x, y in zip(a, b))
+
+
+def soft(res, where, case, impl, ref):
+    """Something the property TEXT does not state (behaviour on malformed input, exact exception classes, None-vs-empty conventions, values that
+    belong to other properties) differs from the reference: reported like a model/implementation disagreement -- broken tie,
+    `no-failing-input-found` -- never as a violation with a concrete replay (HARDENING_CHECKLIST item 14)."""
+    if res is None:
+        return
+    res.count("reference-only." + where)
+    res.disagree("C14:reference:" + where, {"case": case}, str(impl)[:600], str(ref)[:600])
 
 
 class Absent(Exception):
@@ -263,8 +278,7 @@ class Eval:
         if raw.get("merges"):
             order = sorted(set(self.parent["plate_names"]))
             if self.parent["plate_ids"] != [order.index(x) for x in self.parent["plate_names"]]:
-                self.fail("after Plate.merge the parent's plate ids are not the fresh encoding of its (rewritten) plate names",
-                          self.parent["plate_ids"], [order.index(x) for x in self.parent["plate_names"]], signature="C14:merged-parent:plate-ids")
+                self.soft("merged-parent:plate-ids", self.parent["plate_ids"], [order.index(x) for x in self.parent["plate_names"]])    # Plate.merge: C13
         self.pvals = {name: read_prop(s, name) for name in prop_names(s) if name != "plates"}
         self.obs_f = [float(x) for x in s.observations]
         # independent check of the parent's own single-treatment effects (tolerance: a mean is computed)
@@ -272,8 +286,11 @@ class Eval:
         mine = ste_of_rows(self.parent["sample_ids"], self.parent["treatment_ids"], self.obs_f)
         got = val.tolist() if (st == "ok" and val is not None) else (None if st == "ok" else val)
         if n and not ste_close(got, mine):
-            self.fail("the screen's single_treatment_effects differ from the means of its monotherapy rows", got, mine, signature="C14:ste:parent")
+            self.soft("ste:parent", got, mine)      # the VALUE of the parent's effects is not C14's; that a view reports the parent's rows is
         self.ste_kind = "none" if got is None else "raises" if isinstance(got, str) else "array"
+
+    def soft(self, where, impl, ref):
+        soft(self.res, where, self.case, impl, ref)
 
     def fail(self, what, observed, required, signature=None):
         if self.res is not None:
@@ -381,6 +398,9 @@ class Eval:
                 if want is None:
                     continue
                 got = (st, canon(val) if st == "ok" else val)
+                if got != (want[0], canon(want[1]) if want[0] == "ok" else want[1]) and want[0] == "raises":
+                    self.soft("derived:" + name + ":exception-class", got, want)       # which exception an inapplicable property raises
+                    continue
                 if got != (want[0], canon(want[1]) if want[0] == "ok" else want[1]):
                     self.fail("derived property of a view differs from its value on the parent's selected rows", {"property": name, "got": got},
                               want, signature="C14:derived:" + name)
@@ -399,9 +419,7 @@ class Eval:
             pst, pval = self.pvals[name]
             if pst == "raises":
                 if (st, val) != (pst, pval):
-                    self.fail("per-experiment attribute: the parent's raises, the view's does not", {"attr": name, "got": (st, str(val)[:80])},
-                              pval, signature="C14:attr:" + name)
-                    return False
+                    self.soft("attr:" + name + ":exception-class", (st, str(val)[:80]), pval)
                 continue
             if pval is None:
                 if st != "ok" or val is not None:
@@ -534,7 +552,7 @@ class Eval:
             raise ValueError(op)
         exp = self.expected(tree, kexp)
         if op in ("o", "u") and not any(exp):
-            self.fail("observed/unobserved view present although it is empty", "a view", None)
+            self.soft("empty-observed-view-present", "a view", None)        # None-for-empty is a convention, not in the text
         if v.screen is self.screen:
             self.check_view(tree, v, exp)
             if op == "q":
@@ -617,7 +635,7 @@ def check_unique_direct(res, case, cols, got, out):
     same = len(set(len(c) for c in cols)) <= 1
     if not cols or not same:
         if got is not None:
-            res.fail("select_unique_zipped_numpy_arrays accepts columns of different lengths", case, out, "ValueError", signature="C14:unique:direct")
+            soft(res, "unique:direct:unequal-lengths-accepted", case, out, "ValueError")
         return
     if got is None:
         res.fail("select_unique_zipped_numpy_arrays raises on equally long columns", case, out, "a mask", signature="C14:unique:direct")
@@ -829,6 +847,172 @@ def extras(E, raw, res, case, toks, queue, do_unique, do_plates):
             res.fail("plates raises", case, "%s: %s" % (type(e).__name__, e), "list of plates")
 
 
+# ---------------------------------------------------------------- HARDENING_CHECKLIST items 10, 12, 13
+
+PER_ROW = ["plate_ids", "sample_ids", "treatment_ids", "sample_names", "treatment_names", "treatment_doses", "observations", "observation_mask"]
+
+
+def view_props(v):
+    """selection vector + every property of the view's class, canonical"""
+    out = {"selection_vector": [bool(b) for b in v.selection_vector]} if hasattr(v, "selection_vector") else {}
+    for name in prop_names(v):
+        if name == "plates":
+            continue
+        st, val = read_prop(v, name)
+        out[name] = canon(val) if st == "ok" else "raises:" + val
+    return out
+
+
+def equal_size_masks(rng, n, k):
+    c = rng.randint(1, max(1, n - 1)) if n > 1 else n
+    out = []
+    for _ in range(k):
+        idx = set(rng.sample(range(n), c))
+        out.append([i in idx for i in range(n)])
+    return out
+
+
+def temporaries_case(res, case):
+    """item 10: attributes / to_screen / unique filter of TEMPORARY views of equal size (get_plate(p), subset(m) built, used once, dropped) are
+    the parent's rows at that plate / mask"""
+    from batchie.data import filter_dataset_to_unique_treatments
+    raw, masks = case["raw"], case["masks"]
+    E = Eval(raw, res, case)
+    s = E.screen
+    P = E.parent
+    sels = [("get_plate(%d)" % q, [x == q for x in P["plate_ids"]], (lambda q=q: s.get_plate(q))) for q in sorted(set(P["plate_ids"]))]
+    sels += [("subset(mask %d)" % j, list(m), (lambda m=m: s.subset(np.array(m, dtype=bool)))) for j, m in enumerate(masks)]
+    for attr in PER_ROW:
+        got = [canon(getattr(mk(), attr)) for _, _, mk in sels]                 # one temporary per read, only the value kept
+        for (nm, sel, _), g in zip(sels, got):
+            want = [P[attr][i] for i, b in enumerate(sel) if b]
+            want = [("f", x) for x in want] if attr == "observations" else canon(np.array(want).reshape(len(want), -1) if attr in ("treatment_ids", "treatment_names", "treatment_doses") and want else want)
+            if attr == "treatment_doses":
+                g = [[S.dose_tok(S.from_bits(x[1])) for x in r] for r in g]
+                want = [[S.dose_tok(x) for x in P[attr][i]] for i, b in enumerate(sel) if b]
+            if g != want:
+                res.fail("attribute of a temporary view is not the parent's at the selected rows", case, {"view": nm, "attr": attr, "got": g}, want,
+                         signature="C14:temporaries:attr:" + attr)
+                return
+    rows = [[str(x) for x in mk().to_screen().plate_names] + [S.bits(x) for x in mk().to_screen().observations] for _, _, mk in sels]
+    for (nm, sel, _), g in zip(sels, rows):
+        idx = [i for i, b in enumerate(sel) if b]
+        if g != [P["plate_names"][i] for i in idx] + [P["observations"][i] for i in idx]:
+            res.fail("to_screen() of a temporary view does not have the selected rows", case, {"view": nm, "got": g},
+                     [P["plate_names"][i] for i in idx] + [P["observations"][i] for i in idx], signature="C14:temporaries:to_screen")
+            return
+    uq = [[bool(b) for b in filter_dataset_to_unique_treatments(mk()).selection_vector] for _, _, mk in sels]
+    for (nm, sel, _), g in zip(sels, uq):
+        key = lambda i: (P["sample_ids"][i], tuple(P["treatment_ids"][i]))
+        kept = [i for i, b in enumerate(g) if b]
+        inside = [i for i, b in enumerate(sel) if b]
+        if any(not sel[i] for i in kept) or len(set(map(key, kept))) != len(kept) or set(map(key, kept)) != set(map(key, inside)):
+            res.fail("unique filter of a temporary view does not keep exactly one experiment per distinct condition of that view", case,
+                     {"view": nm, "kept": kept}, "one row per distinct condition", signature="C14:temporaries:unique")
+            return
+
+
+def instalments_case(res, case):
+    """item 12: a selection reached in instalments and in one call is the same view on every property (by introspection), and materialises to the
+    same screen: subset(m1).subset(m2) vs subset(composed); a.combine(b).combine(c) vs ScreenSubset.concat([a, b, c]) vs subset(union)"""
+    from batchie.data import ScreenSubset
+    raw, m1, m2, ms = case["raw"], case["m1"], case["m2"], case["ms"]
+    E = Eval(raw, res, case)
+    s = E.screen
+    B = lambda m: np.array(m, dtype=bool)
+    pos = [i for i, b in enumerate(m1) if b]
+    comp = [False] * E.n
+    for j, i in enumerate(pos):
+        comp[i] = bool(m2[j])
+    union = [any(m[i] for m in ms) for i in range(E.n)]
+    groups = [
+        ("nested subset", comp, [("subset(m1).subset(m2)", s.subset(B(m1)).subset(B(m2))), ("subset(composed)", s.subset(B(comp)))]),
+        ("union", union, [("a.combine(b).combine(c)", s.subset(B(ms[0])).combine(s.subset(B(ms[1]))).combine(s.subset(B(ms[2])))),
+                          ("concat([a, b, c])", ScreenSubset.concat([s.subset(B(m)) for m in ms])), ("subset(union)", s.subset(B(union)))]),
+    ]
+    for gname, exp, views in groups:
+        ref_name, ref_view = views[-1]
+        ref = view_props(ref_view)
+        ref_rows = S.show_rows(ref_view.to_screen()) + "|" + S.show_screen(ref_view.to_screen())
+        for nm, v in views:
+            E.check_view([gname], v, exp)
+            got = view_props(v)
+            diff = sorted(k for k in set(ref) & set(got) if ref[k] != got[k])      # Plate has plate_id / plate_name, ScreenSubset has not
+            if diff:
+                res.fail("a view reached in instalments differs from the view reached in one call (by introspection)", case,
+                         {"how": nm, "vs": ref_name, "properties": diff, "got": str(got.get(diff[0]))[:200]}, str(ref.get(diff[0]))[:200],
+                         signature="C14:instalments:" + gname)
+                return
+            rows = S.show_rows(v.to_screen()) + "|" + S.show_screen(v.to_screen())
+            if rows != ref_rows:
+                res.fail("a view reached in instalments materialises to another screen than the view reached in one call", case,
+                         {"how": nm, "got": rows[:300]}, ref_rows[:300], signature="C14:instalments:to_screen:" + gname)
+                return
+    E.check_alias("instalments")
+
+
+def wide_parent(rng, m):
+    """a parent with m plates and m distinct non-control treatments (ids up to m-1 straddle the int8 / uint8 boundaries), two samples,
+    every condition duplicated once on another plate"""
+    n = m + rng.randint(3, 8)
+    tid = [i % m for i in range(n)]
+    pl = [(i * 7 + 3) % m if i < m else rng.randrange(m) for i in range(n)]
+    pl = list(range(m)) + pl[m:]
+    status = {q: rng.random() < 0.5 for q in range(m)}
+    return dict(ctrl="", arity=1, tnames=[["t%03d" % t] for t in tid], tdoses=[[1.0] for _ in tid], snames=["s%d" % (t % 2) for t in tid],
+                pnames=["p%03d" % q for q in pl], obs=[rng.choice([0.25, 0.5, 0.75]) for _ in tid], mask=[status[q] for q in pl], tmap=None, smap=None)
+
+
+def int_width_case(res, case, queue=None):
+    """item 13: 127 / 128 / 255 / 256 / 257 plates and treatment ids: every plate, the rows with large ids, unique filter, to_screen"""
+    from batchie.data import filter_dataset_to_unique_treatments
+    raw = case["raw"]
+    toks = S.raw_to_tokens(raw)
+    E = Eval(raw, res, case)
+    extras(E, raw, res, case, toks, None, True, True)           # all plates (partition, attributes), unique filter on the screen
+    n = E.n
+    m = len(set(raw["pnames"]))
+    big = [P >= 128 or t[0] >= 128 for P, t in zip(E.parent["plate_ids"], E.parent["treatment_ids"])]
+    for name, tree in (("large ids", ["S", big]), ("last plate", ["p", m - 1]), ("plate 0 (= 256 mod 256)", ["p", 0]),
+                       ("unique of all", ["q", ["S", [True] * n]]), ("complement of plate 127", ["i", ["p", min(127, m - 1)]])):
+        v, exp = E.ev(tree)
+        t = check_to_screen(E, v, res, case)
+        if queue is not None:
+            queue("vexpr " + S.lst(rpn(tree), "+") + " " + toks, show_view(v), case)
+            if tree[0] != "i":
+                queue("vscreen " + S.lst(rpn(tree), "+") + " " + toks, S.show_screen(t) + "|" + S.show_rows(t), case)
+    E.recheck_all()
+
+
+def checklist_classes(ctx, res, rng, queue):
+    n_max = 10 if ctx.tier == "quick" else 24
+    for t in range(ctx.scale(10, 120)):
+        raw = gen_screen(rng, n_max)
+        while len(raw["snames"]) < 3:
+            raw = gen_screen(rng, n_max)
+        if len(set(raw["pnames"])) >= 2 and rng.random() < 0.3:
+            raw["merges"] = gen_merges(rng, raw)
+        n = len(raw["snames"])
+        case = {"kind": "temporaries", "raw": raw, "masks": equal_size_masks(rng, n, 5)}
+        res.evaluations += 1
+        res.count("class.temporaries")
+        temporaries_case(res, case)
+        m1 = gen_mask(rng, n)
+        case = {"kind": "instalments", "raw": raw, "m1": m1, "m2": gen_mask(rng, sum(m1)), "ms": [gen_mask(rng, n) for _ in range(3)]}
+        res.evaluations += 1
+        res.count("class.instalments")
+        instalments_case(res, case)
+    sizes = [127, 128, 255, 256, 257]
+    picks = sizes if not (ctx.tier == "quick" and ctx.mode != "search") else [257, rng.choice([127, 128, 255, 256])]     # 257 plates: ids 0..256 cross every boundary
+    for m in picks:
+        case = {"kind": "int-width", "raw": wide_parent(rng, m)}
+        res.evaluations += 1
+        res.count("class.int-width")
+        res.count("class.int-width.%d" % m)
+        int_width_case(res, case, queue)
+
+
+
 def run(ctx, res):
     res.rule = RULE
     rng = ctx.subrng("c14")
@@ -846,6 +1030,8 @@ def run(ctx, res):
         expect.append(out)
         where.append(w)
 
+    # first, so that an identity-keyed cache is reported on a case whose replay re-creates the address reuse
+    checklist_classes(ctx, res, ctx.subrng("c14", "classes"), queue)
     for t in range(n_trees):
         raw = gen_screen(rng, n_max)
         if len(set(raw["pnames"])) >= 2 and rng.random() < 0.4:
@@ -914,6 +1100,15 @@ def replay(ctx, case, res):
         except Exception as e:      # noqa: BLE001
             got, out = None, S.err_tok(e)
         check_unique_direct(res, case, cols, got, out)
+        return
+    if case.get("kind") == "temporaries":
+        temporaries_case(res, case)
+        return
+    if case.get("kind") == "instalments":
+        instalments_case(res, case)
+        return
+    if case.get("kind") == "int-width":
+        int_width_case(res, case)
         return
     E, v, err = run_tree(case["raw"], case["tree"], res, case, case.get("lseed", 0))
     if v is not None and v.screen is E.screen:
